@@ -1,17 +1,362 @@
 /-
   C18 — MetaObject → IDL → MetaObject; the type layer.
   Theorems about Model/Idl.lean: the IDL type parser reads back what the SignatureIDL printers
-  write, for every type of the class stated below, whatever follows it.
+  write, for every type of the class stated below, whatever follows it; and the type read back
+  stands for the same signature.  (Lexical lemmas: Lemmas/Idl.lean.)
+
+  Outside the class, on purpose: template struct names (`Name<T>`: read by `typeIdent`, exercised
+  by the correspondence only), and the two repeated keywords (indices 10, 11: never reached by an
+  ordered choice, `repeated_keywords_unreachable`).
 -/
-import QiVerif.Model.Idl
+import QiVerif.Lemmas.Idl
+import QiVerif.Model.Signature
 set_option linter.unusedSimpArgs false
 set_option linter.unusedVariables false
 namespace QiVerif.C18
 open QiVerif QiVerif.Idl
 
-theorem stripPrefix_append (l r : Bytes) : stripPrefix l (l ++ r) = some r := by
-  induction l with
-  | nil => cases r <;> rfl
-  | cons a l ih => simp [stripPrefix, ih]
+/-- a struct name as `SignatureIDL` writes it: an identifier that is not the name of a basic type -/
+def IsName (n : Bytes) : Prop := ∃ c w, n = c :: w ∧ isAlphaU c = true ∧ AllWord w ∧ n ∉ keywords
+
+mutual
+/-- the types a meta-object's printers write -/
+def WF : IT → Prop
+  | .basic k => canon k = true
+  | .vec t => WF t
+  | .map k v => WF k ∧ WF v
+  | .tuple ts => WFs ts
+  | .ref n => IsName n
+def WFs : List IT → Prop
+  | [] => True
+  | t :: r => WF t ∧ WFs r
+end
+
+mutual
+/-- a sufficient recursion depth -/
+def need : IT → Nat
+  | .basic _ => 1
+  | .ref _ => 1
+  | .vec t => need t + 2
+  | .map k v => max (need k) (need v) + 2
+  | .tuple ts => needs ts + 2
+def needs : List IT → Nat
+  | [] => 0
+  | t :: r => max (need t) (needs r) + 1
+end
+
+/-- the elements of a tuple after the first, each with its comma -/
+def printMore : List IT → Bytes
+  | [] => []
+  | t :: r => [44] ++ printT t ++ printMore r
+
+theorem printTs_cons (t : IT) (r : List IT) : printTs (t :: r) = printT t ++ printMore r := by
+  induction r generalizing t with
+  | nil => simp [printTs, printMore]
+  | cons u r ih => simp only [printTs, printMore, ih u]; simp [comma]
+
+def P (t : IT) : Prop := ∀ f rest, need t ≤ f → Follow rest → parseT f (printT t ++ rest) = some (t, rest)
+def MoreOK (ts : List IT) : Prop := ∀ f rest, needs ts ≤ f →
+  parseMore f (printMore ts ++ 62 :: rest) = (ts, 62 :: rest)
+
+theorem allWord_of (w : Bytes) (h : w.all isWord = true) : AllWord w := by
+  intro c hc; exact List.all_eq_true.mp h c hc
+
+theorem follow_comma (r : Bytes) : Follow (44 :: r) := by simp only [Follow]; exact ⟨by decide, by decide⟩
+theorem follow_gt (r : Bytes) : Follow (62 :: r) := by simp only [Follow]; exact ⟨by decide, by decide⟩
+theorem follow_more (ts : List IT) (rest : Bytes) : Follow (printMore ts ++ 62 :: rest) := by
+  cases ts with
+  | nil => exact follow_gt rest
+  | cons t r => simp only [printMore, List.append_assoc, List.cons_append, List.nil_append]; exact follow_comma _
+
+theorem p_basic (k : Nat) (h : canon k = true) : P (.basic k) := by
+  intro f rest hf hfo
+  cases f with
+  | zero => simp [need] at hf
+  | succ f => simp only [parseT, printT, basic_hit k h rest hfo]
+
+theorem p_ref (n : Bytes) (h : IsName n) : P (.ref n) := by
+  intro f rest hf hfo
+  obtain ⟨c, w, he, hc, hw, hnk⟩ := h
+  have hn : AllWord n := by
+    subst he; intro x hx; simp only [List.mem_cons] at hx
+    rcases hx with e | e
+    · subst e; exact alpha_word x hc
+    · exact hw x e
+  have hnn : n ≠ [] := by subst he; simp
+  cases f with
+  | zero => simp [need] at hf
+  | succ f =>
+    have h1 : firstKeyword keywords 0 (printT (.ref n) ++ rest) = none := by
+      apply firstKeyword_none
+      intro k hk
+      obtain ⟨_, _, _, _, hkw⟩ := keyword_shape k hk
+      exact keyword_on_word k n rest hkw hn (by intro e; subst e; exact hnk hk) hnn hfo
+    have h2 : parseMap f (n ++ rest) = none :=
+      parseMap_none f _ (atom_lt_word [77, 97, 112] n rest (allWord_of _ (by decide)) hn hnn hfo)
+    have h3 : parseTuple f (n ++ rest) = none :=
+      parseTuple_none f _ (atom_lt_word [84, 117, 112, 108, 101] n rest (allWord_of _ (by decide)) hn hnn hfo)
+    have h4 : parseVec f (n ++ rest) = none :=
+      parseVec_none f _ (atom_lt_word [86, 101, 99] n rest (allWord_of _ (by decide)) hn hnn hfo)
+    simp only [printT] at h1 ⊢
+    simp only [parseT, h1, h2, h3, h4]
+    subst he
+    rw [typeIdent_plain c w rest hc hw hfo]; rfl
+
+theorem p_vec (t : IT) (ht : P t) : P (.vec t) := by
+  intro f rest hf hfo
+  simp only [need] at hf
+  obtain ⟨g, rfl⟩ : ∃ g, f = g + 2 := ⟨f - 2, by omega⟩
+  have hin : printT (.vec t) ++ rest = 86 :: ([101, 99, 60] ++ printT t ++ 62 :: rest) := by
+    simp [printT, kwVec, gt]
+  have hat : atom kwVec (printT (.vec t) ++ rest) = some (printT t ++ 62 :: rest) := by
+    have := atom_hit kwVec 86 [101, 99, 60] (printT t ++ 62 :: rest) rfl (by decide)
+    simpa [printT, gt] using this
+  rw [parseT, hin, firstKeyword_miss 86 _ (by simp)]
+  simp only
+  rw [parseMap_none _ _ (atom_miss kwMap 86 _ (by decide) (by decide)),
+      parseTuple_none _ _ (atom_miss kwTuple 86 _ (by decide) (by decide)), ← hin]
+  simp only [parseVec, hat, ht g (62 :: rest) (by omega) (follow_gt rest)]
+  simp [atom, skipWS, isWS, stripPrefix, gt]
+
+
+theorem atom_comma (r : Bytes) : atom [comma] (44 :: r) = some r := by
+  simp [atom, skipWS, isWS, stripPrefix, comma]
+theorem atom_gt (r : Bytes) : atom [gt] (62 :: r) = some r := by
+  simp [atom, skipWS, isWS, stripPrefix, gt]
+theorem atom_comma_gt (r : Bytes) : atom [comma] (62 :: r) = none := by
+  simp [atom, skipWS, isWS, stripPrefix, comma]
+
+theorem p_map (k v : IT) (hk : P k) (hv : P v) : P (.map k v) := by
+  intro f rest hf hfo
+  simp only [need] at hf
+  obtain ⟨g, rfl⟩ : ∃ g, f = g + 2 := ⟨f - 2, by omega⟩
+  have hin : printT (.map k v) ++ rest = 77 :: ([97, 112, 60] ++ printT k ++ 44 :: (printT v ++ 62 :: rest)) := by
+    simp [printT, kwMap, gt, comma]
+  have hat : atom kwMap (printT (.map k v) ++ rest) = some (printT k ++ 44 :: (printT v ++ 62 :: rest)) := by
+    have := atom_hit kwMap 77 [97, 112, 60] (printT k ++ 44 :: (printT v ++ 62 :: rest)) rfl (by decide)
+    simpa [printT, gt, comma] using this
+  rw [parseT, hin, firstKeyword_miss 77 _ (by simp), ← hin]
+  simp only [parseMap, hat, hk g _ (by omega) (follow_comma _), atom_comma,
+    hv g _ (by omega) (follow_gt rest), atom_gt]
+
+theorem more_nil : MoreOK [] := by
+  intro f rest _
+  cases f with
+  | zero => rfl
+  | succ f => simp [parseMore, printMore, atom_comma_gt]
+
+theorem more_cons (t : IT) (r : List IT) (ht : P t) (hr : MoreOK r) : MoreOK (t :: r) := by
+  intro f rest hf
+  simp only [needs] at hf
+  obtain ⟨g, rfl⟩ : ∃ g, f = g + 1 := ⟨f - 1, by omega⟩
+  have hin : printMore (t :: r) ++ 62 :: rest = 44 :: (printT t ++ (printMore r ++ 62 :: rest)) := by
+    simp [printMore]
+  rw [hin]
+  simp only [parseMore, atom_comma, ht g _ (by omega) (follow_more r rest), hr g rest (by omega)]
+
+theorem p_tuple (ts : List IT) (h : match ts with | [] => True | t :: r => P t ∧ MoreOK r) : P (.tuple ts) := by
+  intro f rest hf hfo
+  simp only [need] at hf
+  obtain ⟨g, rfl⟩ : ∃ g, f = g + 2 := ⟨f - 2, by omega⟩
+  have hin : printT (.tuple ts) ++ rest = 84 :: ([117, 112, 108, 101, 60] ++ printTs ts ++ 62 :: rest) := by
+    simp [printT, kwTuple, gt]
+  have hat : atom kwTuple (printT (.tuple ts) ++ rest) = some (printTs ts ++ 62 :: rest) := by
+    have := atom_hit kwTuple 84 [117, 112, 108, 101, 60] (printTs ts ++ 62 :: rest) rfl (by decide)
+    simpa [printT, gt] using this
+  rw [parseT, hin, firstKeyword_miss 84 _ (by simp)]
+  simp only
+  rw [parseMap_none _ _ (atom_miss kwMap 84 _ (by decide) (by decide)), ← hin]
+  cases ts with
+  | nil =>
+    simp only [parseTuple, hat, printTs, List.nil_append, parseT_gt, atom_gt]
+  | cons t r =>
+    simp only [needs] at hf
+    rw [printTs_cons, List.append_assoc] at hat
+    simp only [parseTuple, hat, h.1 g _ (by omega) (follow_more r rest), h.2 g rest (by omega), atom_gt]
+
+mutual
+theorem p_all : (t : IT) → WF t → P t
+  | .basic k, h => p_basic k (by simpa [WF] using h)
+  | .ref n, h => p_ref n (by simpa [WF] using h)
+  | .vec t, h => p_vec t (p_all t (by simpa [WF] using h))
+  | .map k v, h => by
+    simp only [WF] at h
+    exact p_map k v (p_all k h.1) (p_all v h.2)
+  | .tuple [], _ => p_tuple [] trivial
+  | .tuple (t :: r), h => by
+    simp only [WF, WFs] at h
+    exact p_tuple (t :: r) ⟨p_all t h.1, more_all r h.2⟩
+theorem more_all : (ts : List IT) → WFs ts → MoreOK ts
+  | [], _ => more_nil
+  | t :: r, h => by
+    simp only [WFs] at h
+    exact more_cons t r (p_all t h.1) (more_all r h.2)
+end
+
+mutual
+theorem need_bound : (t : IT) → need t ≤ 2 * (printT t).length + 4
+  | .basic _ => by simp [need]
+  | .ref _ => by simp [need]
+  | .vec t => by have := need_bound t; simp [need, printT, kwVec]; omega
+  | .map k v => by have := need_bound k; have := need_bound v; simp [need, printT, kwMap]; omega
+  | .tuple [] => by simp [need, needs]
+  | .tuple (t :: r) => by
+    have := need_bound t; have := needs_bound r
+    simp [need, needs, printT, kwTuple, printTs_cons]; omega
+theorem needs_bound : (ts : List IT) → needs ts ≤ 2 * (printMore ts).length + 4
+  | [] => by simp [needs]
+  | t :: r => by
+    have := need_bound t; have := needs_bound r
+    simp [needs, printMore]; omega
+end
+
+
+theorem firstKeyword_spec (ks : List Bytes) (i n : Nat) (inp r : Bytes) (h : firstKeyword ks i inp = some (n, r)) :
+    ∃ m k, n = i + m ∧ ks[m]? = some k ∧ keyword k inp = some r ∧
+      ∀ j, j < m → ∀ k', ks[j]? = some k' → keyword k' inp = none := by
+  induction ks generalizing i with
+  | nil => simp [firstKeyword] at h
+  | cons x xs ih =>
+    simp only [firstKeyword] at h
+    cases hx : keyword x inp with
+    | some r' =>
+      rw [hx] at h; simp only [Option.some.injEq, Prod.mk.injEq] at h
+      exact ⟨0, x, by omega, by simp, by rw [hx, h.2], by intro j hj; omega⟩
+    | none =>
+      rw [hx] at h
+      obtain ⟨m, k, hn, hk, hm, hb⟩ := ih (i + 1) h
+      refine ⟨m + 1, k, by omega, by simpa using hk, hm, ?_⟩
+      intro j hj k' hk'
+      cases j with
+      | zero => simp at hk'; subst hk'; exact hx
+      | succ j => exact hb j (by omega) k' (by simpa using hk')
+
+/-! ### C18 — the type layer -/
+
+/-- **What the printers write, the parser reads back** — a basic type, `Vec<…>`, `Map<…,…>`,
+    `Tuple<…>` (the empty one included) or a struct name, nested arbitrarily, followed by anything
+    that can follow a type (the end, a blank, `,`, `>`, `)` … — not a word character, not `<`):
+    the parser returns exactly that type and leaves exactly what followed. -/
+theorem parse_print (t : IT) (h : WF t) (rest : Bytes) (hfo : Follow rest) (f : Nat) (hf : need t ≤ f) :
+    parseT f (printT t ++ rest) = some (t, rest) := p_all t h f rest hf hfo
+
+/-- the same at the depth the harness uses (twice the length of the text, plus four) -/
+theorem parseType_print (t : IT) (h : WF t) : parseType (printT t) = some (t, []) := by
+  have := p_all t h (2 * (printT t).length + 4) [] (need_bound t) trivial
+  simpa [parseType] using this
+
+/-- in a parameter list or a member declaration a type is followed by a blank, a comma or a
+    parenthesis: all of them may follow -/
+theorem follows_in_context (r : Bytes) : Follow (32 :: r) ∧ Follow (44 :: r) ∧ Follow (41 :: r) ∧ Follow (10 :: r) := by
+  simp only [Follow]; exact ⟨⟨by decide, by decide⟩, ⟨by decide, by decide⟩, ⟨by decide, by decide⟩, ⟨by decide, by decide⟩⟩
+
+/-- the hypothesis on what follows is needed: a struct name followed by a word character is a
+    different name, and a keyword followed by one is no keyword -/
+example : parseT 1 ([70, 111, 111] ++ [49]) = some (.ref [70, 111, 111, 49], []) := by rfl
+example : parseT 1 ([105, 110, 116, 56] ++ [49]) = some (.ref [105, 110, 116, 56, 49], []) := by rfl
+
+/-- the two repeated entries of the ordered choice (`int64`, `uint64` a second time) are never the
+    answer: the class `canon` loses nothing -/
+theorem repeated_keywords_unreachable (inp r : Bytes) (n : Nat) (h : firstKeyword keywords 0 inp = some (n, r)) :
+    n ≠ 10 ∧ n ≠ 11 := by
+  obtain ⟨m, k, hn, hk, hm, hb⟩ := firstKeyword_spec keywords 0 n inp r h
+  have hn' : n = m := by omega
+  subst hn'
+  constructor
+  · intro e; subst e
+    have h6 := hb 6 (by omega) [105, 110, 116, 54, 52] (by decide)
+    have : k = [105, 110, 116, 54, 52] := by
+      have : keywords[10]? = some [105, 110, 116, 54, 52] := by decide
+      rw [this] at hk; exact (Option.some.inj hk).symm
+    subst this; rw [h6] at hm; cases hm
+  · intro e; subst e
+    have h7 := hb 7 (by omega) [117, 105, 110, 116, 54, 52] (by decide)
+    have : k = [117, 105, 110, 116, 54, 52] := by
+      have : keywords[11]? = some [117, 105, 110, 116, 54, 52] := by decide
+      rw [this] at hk; exact (Option.some.inj hk).symm
+    subst this; rw [h7] at hm; cases hm
+
+/-! ### from a signature to the IDL and back -/
+
+/-- the keyword a one-letter signature type is printed as -/
+def kwOf : UInt8 → Nat
+  | 99 => 0 | 67 => 1 | 119 => 2 | 87 => 3 | 105 => 4 | 73 => 5 | 108 => 6 | 76 => 7
+  | 102 => 8 | 100 => 9 | 98 => 12 | 115 => 13 | 111 => 14 | 109 => 15 | 118 => 16 | _ => 17
+
+theorem kwOf_ok : ∀ c ∈ Sig.basicLetters, canon (kwOf c) = true ∧ sigLetter (kwOf c) = [c] := by decide
+
+mutual
+/-- `SignatureIDL()` of a signature type, as a type of the IDL: a struct is written by its name -/
+def toIT : Sig.Ty → IT
+  | .basic c => .basic (kwOf c)
+  | .list t => .vec (toIT t)
+  | .map k v => .map (toIT k) (toIT v)
+  | .tuple ts => .tuple (toITs ts)
+  | .struct n _ => .ref n
+def toITs : List Sig.Ty → List IT
+  | [] => []
+  | t :: r => toIT t :: toITs r
+end
+
+mutual
+/-- the signature types of the documented grammar whose structs are declared in `scope` -/
+def Scoped (scope : Bytes → Option Bytes) : Sig.Ty → Prop
+  | .basic c => c ∈ Sig.basicLetters
+  | .list t => Scoped scope t
+  | .map k v => Scoped scope k ∧ Scoped scope v
+  | .tuple ts => ScopedL scope ts
+  | .struct n ms => IsName n ∧ scope n = some (Sig.print (.struct n ms))
+def ScopedL (scope : Bytes → Option Bytes) : List Sig.Ty → Prop
+  | [] => True
+  | t :: r => Scoped scope t ∧ ScopedL scope r
+end
+
+mutual
+theorem toIT_wf (scope : Bytes → Option Bytes) : (t : Sig.Ty) → Scoped scope t → WF (toIT t)
+  | .basic c, h => by simp only [Scoped] at h; simp only [toIT, WF]; exact (kwOf_ok c h).1
+  | .list t, h => by simp only [Scoped] at h; simp only [toIT, WF]; exact toIT_wf scope t h
+  | .map k v, h => by
+    simp only [Scoped] at h; simp only [toIT, WF]; exact ⟨toIT_wf scope k h.1, toIT_wf scope v h.2⟩
+  | .tuple ts, h => by simp only [Scoped] at h; simp only [toIT, WF]; exact toITs_wf scope ts h
+  | .struct n ms, h => by simp only [Scoped] at h; simp only [toIT, WF]; exact h.1
+theorem toITs_wf (scope : Bytes → Option Bytes) : (ts : List Sig.Ty) → ScopedL scope ts → WFs (toITs ts)
+  | [], _ => by simp [toITs, WFs]
+  | t :: r, h => by
+    simp only [ScopedL] at h; simp only [toITs, WFs]; exact ⟨toIT_wf scope t h.1, toITs_wf scope r h.2⟩
+end
+
+mutual
+theorem sig_toIT (scope : Bytes → Option Bytes) : (t : Sig.Ty) → Scoped scope t → sigIn scope (toIT t) = some (Sig.print t)
+  | .basic c, h => by simp only [Scoped] at h; simp only [toIT, sigIn, Sig.print, (kwOf_ok c h).2]
+  | .list t, h => by
+    simp only [Scoped] at h; simp only [toIT, sigIn, Sig.print, sig_toIT scope t h]; simp
+  | .map k v, h => by
+    simp only [Scoped] at h
+    simp only [toIT, sigIn, Sig.print, sig_toIT scope k h.1, sig_toIT scope v h.2]
+  | .tuple ts, h => by
+    simp only [Scoped] at h; simp only [toIT, sigIn, Sig.print, sigs_toITs scope ts h]; simp
+  | .struct n ms, h => by simp only [Scoped] at h; simp only [toIT, sigIn]; exact h.2
+theorem sigs_toITs (scope : Bytes → Option Bytes) : (ts : List Sig.Ty) → ScopedL scope ts →
+    sigIns scope (toITs ts) = some (Sig.printList ts)
+  | [], _ => by simp [toITs, sigIns, Sig.printList]
+  | t :: r, h => by
+    simp only [ScopedL] at h
+    simp only [toITs, sigIns, Sig.printList, sig_toIT scope t h.1, sigs_toITs scope r h.2]
+end
+
+/-- **A signature survives the trip through the IDL**: whatever type of the grammar a method
+    parameter, a return value, a signal or a property has — its structs declared in the package —
+    the text `SignatureIDL` writes for it is read back as a type that stands for the identical
+    signature. -/
+theorem signature_survives (scope : Bytes → Option Bytes) (ty : Sig.Ty) (h : Scoped scope ty) :
+    ∃ t, parseType (printT (toIT ty)) = some (t, []) ∧ sigIn scope t = some (Sig.print ty) :=
+  ⟨toIT ty, parseType_print _ (toIT_wf scope ty h), sig_toIT scope ty h⟩
+
+/-- the hypotheses are met by a nested type with a struct in it -/
+example : Scoped (fun n => if n = [70, 111, 111] then some (Sig.print (.struct [70, 111, 111] [([97], .basic 105)])) else none)
+    (.map (.basic 115) (.list (.tuple [.struct [70, 111, 111] [([97], .basic 105)], .basic 109]))) := by
+  have hn : IsName [70, 111, 111] := ⟨70, [111, 111], rfl, by decide, allWord_of _ (by decide), by decide⟩
+  simp only [Scoped, ScopedL]
+  exact ⟨by decide, ⟨hn, by simp⟩, by decide, trivial⟩
 
 end QiVerif.C18
